@@ -959,6 +959,23 @@ func (d *Driver) judgeC11() {
 				if cur < end.TRet {
 					other = true
 				}
+				if !own && end != g1 && end.Applied && end.OK {
+					// The term that led when the notification came is over, and the instance leads a
+					// later term when the verification reads the record: "its own identity and token"
+					// is that term's. If the read showed exactly that and the verification demoted all
+					// the same, it judged the current term by an earlier one's token.
+					for _, t2 := range myTerms {
+						if t2 == t || t2.Start > end.TApply || (t2.Fall != nil && t2.End <= end.TApply) {
+							continue
+						}
+						if lv := end.PrevLive; lv != nil && lv.P.OK && lv.P.ID == in.cfg.ID && lv.P.Token == t2.Token && lv.Writer == in.idx && lv.Gen == o.gen {
+							d.judgedInc("C11")
+							if t2.Fall != nil && strings.Contains(t2.EndStack, "handleReconnectVerificationFailed") && t2.End >= end.TApply && t2.End <= end.TRet+d.stallIn(in.idx, end.TRet, end.TRet+time.Second)+time.Millisecond {
+								d.h.violate("C11", "demoted-after-successful-reconnect-verification/term-changed-during-verification", fmt.Sprintf("i%d.%d: reconnect at %v during the term from %v; by the time the verification read the record (#%d at %v) the instance led a new term (from %v) and the record held its id and that term's token, but the verification demoted it at %v", in.idx, o.gen, n.T, t.Start, end.ID, end.TApply, t2.Start, t2.End), t2.End, t2.SEnd)
+							}
+						}
+					}
+				}
 				if own == other {
 					d.skip("C11", "record-changed-during-verification")
 					continue
